@@ -213,6 +213,22 @@ fn le_eval(e: &LogicalExpr, asg: &[bool]) -> Result<bool, String> {
         LogicalExpr::Ite { guard, thn, els } => { let (g, t, f) = (le_eval(guard, asg)?, le_eval(thn, asg)?, le_eval(els, asg)?); if g { t } else { f } }
     })
 }
+/// DIMACS text -> LogicalExpr: variable k of the text is index k of the assignment (what the function does; unit ledimacs states it)
+fn run_ledimacs(c: &Value) -> CaseResult {
+    let nv = c["nv"].as_u64().unwrap_or(1) as usize;
+    let cls: Vec<Vec<i64>> = c["clauses"].as_array().map(|a| a.iter().map(|cl| cl.as_array().map(|l| l.iter().map(|x| x.as_i64().unwrap_or(1)).collect()).unwrap_or_default()).collect()).unwrap_or_default();
+    let mut text = format!("p cnf {} {}\n", nv, cls.len());
+    for cl in &cls { for l in cl { text.push_str(&format!("{} ", l)); } text.push_str("0\n"); }
+    let e = LogicalExpr::from_dimacs(&text);
+    for m in 0..(1usize << nv) {
+        // index 0 is unused by the text; indices 1..=nv carry the variables
+        let a: Vec<bool> = (0..=nv).map(|i| i > 0 && (m >> (i - 1)) & 1 == 1).collect();
+        let want = cls.iter().all(|cl| cl.iter().any(|l| a[l.unsigned_abs() as usize] == (*l > 0)));
+        let got = le_eval(&e, &a)?;
+        if got != want { return Err(format!("LogicalExpr::from_dimacs: the expression is {got} on assignment {m:#b} of the variables 1..={nv}, the text says {want}")); }
+    }
+    Ok(())
+}
 fn run_sexpr(c: &Value) -> CaseResult {
     let text = sx_text(&c["expr"]);
     let sx = serde_sexpr::from_str::<LogicalSExpr>(&text).map_err(|e| format!("serde_sexpr rejected {text}: {e}"))?;
@@ -233,6 +249,7 @@ pub fn run(c: &Value) -> CaseResult {
         "ser_sdd" => run_sdd(c),
         "ser_dimacs" => run_dimacs(c),
         "ser_sexpr" => run_sexpr(c),
+        "ser_ledimacs" => run_ledimacs(c),
         _ => run_vtree(c),
     }
 }
@@ -277,6 +294,12 @@ pub fn candidates(seed: u64) -> Vec<Value> {
         let nv = if t % 10 == 9 { 11 + nx(2) } else { 1 + nx(6) };
         let cls: Vec<Vec<i64>> = (0..(1 + nx(6))).map(|_| (0..(if nx(12) == 0 { 0 } else { 1 + nx(4) })).map(|_| { let v = 1 + nx(nv) as i64; if nx(2) == 0 { v } else { -v } }).collect()).collect();
         out.push(json!({"case": "ser_dimacs", "nv": nv, "clauses": cls}));
+    }
+    // the same kind of texts (no empty clause, at least one clause) through LogicalExpr::from_dimacs
+    for _ in 0..150 {
+        let nv = 1 + nx(5);
+        let cls: Vec<Vec<i64>> = (0..(1 + nx(5))).map(|_| (0..(1 + nx(4))).map(|_| { let v = 1 + nx(nv) as i64; if nx(2) == 0 { v } else { -v } }).collect()).collect();
+        out.push(json!({"case": "ser_ledimacs", "nv": nv, "clauses": cls}));
     }
     // s-expressions without constants over names whose lexicographic order differs from their order of appearance and from numeric order
     let pools: [&[&str]; 4] = [&["X", "Y"], &["b", "a", "c"], &["x10", "x9", "x1"], &["Z", "A", "m", "B"]];
